@@ -157,7 +157,10 @@ class Variable(FortranObj):
         # Alternatively, I could do a dictionary merge with local variables
         # having precedence by default and use a flag to override?
         if self.link_obj is not None:
-            return get_keywords(self.link_obj.keywords, self.link_obj.keyword_info)
+            # The link may lead to a procedure, which has no keyword arguments
+            return get_keywords(
+                self.link_obj.keywords, getattr(self.link_obj, "keyword_info", {})
+            )
         return get_keywords(self.keywords, self.keyword_info)
 
     def is_optional(self):
